@@ -345,6 +345,7 @@ private:
     RLBOX_ACQUIRE_SHARED_GUARD(lock, sandbox_list_lock);
     for (auto sandbox_v : sandbox_list) {
       auto sandbox = reinterpret_cast<rlbox_sandbox<T_Sbx>*>(sandbox_v);
+      RLBOX_VERIF_EVENT("list-visit", sandbox);
       if (sandbox->is_pointer_in_sandbox_memory(example_sandbox_ptr)) {
         return sandbox;
       }
@@ -427,6 +428,7 @@ public:
       sandbox_created.store(Sandbox_Status::CREATED);
       RLBOX_ACQUIRE_UNIQUE_GUARD(lock, sandbox_list_lock);
       sandbox_list.push_back(this);
+      RLBOX_VERIF_EVENT("list-push", this);
     }
 
     return created;
@@ -458,6 +460,7 @@ public:
       detail::dynamic_check(
         el_ref != sandbox_list.end(),
         "Unexpected state. Destroying a sandbox that was never initialized.");
+      RLBOX_VERIF_EVENT("list-erase", this);
       sandbox_list.erase(el_ref);
     }
 
